@@ -164,8 +164,9 @@ def c_roundtrip(ctx, case):
         raise
     except Exception as ex:  # noqa: BLE001
         finding = None
-        if has_short_tuple_index(e, (0,)) and "[]" in s and type(ex).__name__ == "ParseError":
-            finding = KF_SUBTUPLE       # a[()] prints as 'a[]'
+        if has_short_tuple_index(e, (0,)) and "[]" in s \
+                and type(ex).__name__ in ("ParseError", "AssertionError"):
+            finding = KF_SUBTUPLE       # a[()] prints as 'a[]' (rejected; by an assert inside a slice)
         ctx.fail("C06.roundtrip", case, f"parse-raised:{type(ex).__name__}:{_edge(e)}",
                  f"{G.src(e)} prints as {s!r}, which the parser rejects: {type(ex).__name__}: {ex}",
                  finding=finding)
@@ -281,6 +282,16 @@ def workload(ctx):
                     n += 1
                     ctx.run("C06.roundtrip", (e,))
         ctx.set_exhaustive("(parent type, child position, child type)")
+        # every pattern of omitted parts of 2- and 3-part slices, in every index position
+        for nparts in (2, 3):
+            for pat in itertools.product([False, True], repeat=nparts):
+                sl = p.Slice(tuple(FILL[i] if keep else None for i, keep in enumerate(pat)))
+                for e in (p.Subscript(A, sl), p.Subscript(A, (sl, B)), p.Subscript(A, (B, sl)),
+                          p.Subscript(A, (sl, sl)), p.Sum((p.Subscript(A, sl), 1))):
+                    if ctx.mine("slices"):
+                        ctx.case(normal.typed_key(e), True, n=0)
+                        ctx.count("slice_patterns")
+                        ctx.run("C06.roundtrip", (e,))
         # three-level nestings over the reduced alphabet
         stride = ctx.pick(6, 1)
         idx = 0
@@ -318,6 +329,7 @@ def workload(ctx):
         for k, v in tr.handlers().items():
             ctx.count("handler:" + k, v)
     ctx.floor("reused_printer_calls", 500)
+    ctx.floor("slice_patterns", 60)
     ctx.floor("exhaustive_edges", 1500)
     ctx.floor("three_level", 2000)
     ctx.floor("roundtrips", 8000)
